@@ -35,11 +35,15 @@ theorem C12_gate_evolver_first :
   exact domMon_meaning _ _ tr
     (dominates_sound "Evolver" "_check_simulation" Generated.commandHandle (by decide) tr o hex)
 
-/-- `Command.handle` itself never calls `evolver.evolve`: the only way there is through
-`_perform_evolution` (see `commandPerformEvolution`), hence through the gate above -/
-theorem C12_handle_never_calls_evolve_directly :
-    ∀ tr o, Exec Generated.commandHandle tr o → Event.call "evolver.evolve" ∉ tr :=
-  neverOccurs_sound _ _ (by decide)
+/-- wherever `Command.handle` itself calls `evolver.evolve` (since fix: commit for finding F53 it does, to record
+evolutions that need no SQL), the call too comes only after `_check_simulation` returned normally -/
+theorem C12_gate_direct_evolve :
+    ∀ tr o, Exec Generated.commandHandle tr o →
+      ∀ pre post, tr = pre ++ Event.call "evolver.evolve" :: post →
+        Event.ret "_check_simulation" ∈ pre := by
+  intro tr o hex
+  exact domMon_meaning _ _ tr
+    (dominates_sound "_check_simulation" "evolver.evolve" Generated.commandHandle (by decide) tr o hex)
 
 /-- monitor state of `_check_simulation`: did the run pass one of the two accepting branches? -/
 inductive Chk where
